@@ -58,6 +58,37 @@
 (*   DevNoProbe         no validation of the functional dependence         *)
 (*   DevValidateFirstOnly  only the first target of a sampler is validated *)
 (*   DevStalePair       the conjugate pair of the first target is kept     *)
+(*   DevShapeLenMean    shape uses len(mean AS GIVEN)/2 instead of rank/2  *)
+(*   DevCacheFirstDraw  the Gamma computed for the first draw is kept      *)
+(*                                                                         *)
+(* Input FORMS.  The same posterior can be written down in several ways:   *)
+(*   mform  the mean as a full vector ("vector": the standard content,     *)
+(*          "constvec": c 1, "axvec": A x), as a SCALAR c broadcast over   *)
+(*          the geometry of dimension n ("scalar"), as a callable of the   *)
+(*          other block conditioned on it ("callable") or as a linear      *)
+(*          model ("model"; for the i.i.d. Gaussian the older field        *)
+(*          `model` = 1 is this form)                                      *)
+(*   dform  the data as ndarray / CUQIarray / python list                  *)
+(*   sform  the scale attribute as the scalar f(d), the vector f(d) 1 or   *)
+(*          the matrix f(d) I                                              *)
+(* Canon(k) is the full-vector / ndarray / scalar-callable writing of the  *)
+(* same content.  The conditional is a function of the content only:       *)
+(* FormIndependent says the Gamma drawn from is the one of Canon(k), in    *)
+(* particular shape = rank/2 + alpha whatever the length of the mean as it *)
+(* was given.  The docstrings document the decision table for the scalar   *)
+(* callable only: for the other forms a refusal when the target is given   *)
+(* is allowed (`mayrefuse`), a draw from another distribution is not.      *)
+(*                                                                         *)
+(* SEQUENCES.  An instance with chg # "none" is a PAIR of configurations   *)
+(* (c, Second(c)) met by ONE sampler object: draw, Change, draw.  Change   *)
+(* replaces the data / the mean / alpha / beta / all of them by the other  *)
+(* variant through public means: how = "set_target" (a posterior           *)
+(* re-conditioned on other values is assigned, what Gibbs does) or         *)
+(* how = "assign" (the public setter of the Gamma prior's shape / rate on  *)
+(* the target the sampler holds).  The second draw belongs to Second(c):   *)
+(* DrawnIsTarget speaks about the configuration in force (Eff) and         *)
+(* SecondDrawIsNew says the Gamma of the second draw is Second(c)'s and    *)
+(* differs from the first one.                                             *)
 (***************************************************************************)
 EXTENDS DiffOps
 
@@ -65,7 +96,10 @@ CONSTANTS MaxG,               \* largest i.i.d. Gaussian dimension
           Tables,             \* TRUE: include the decision-table rows
           DevShapeLen, DevScaleAtCurrent, DevNoProbe,
           NumSetPaths,        \* paths (besides "ctor") on which the numeric sweep instances reach the sampler
-          DevValidateFirstOnly, DevStalePair
+          DevValidateFirstOnly, DevStalePair,
+          FormLevel,          \* 0: no input-form instances, 1: the selection of the quick tier, 2: every form
+          Seqs,               \* TRUE: include the sequence instances (pairs of configurations on one sampler)
+          DevShapeLenMean, DevCacheFirstDraw
 
 VARIABLES pc,      \* "new", "built", "accepted", "rejected", "computed", "done"
           geo,     \* structure of the likelihood computed when the posterior is built
@@ -75,7 +109,8 @@ VARIABLES pc,      \* "new", "built", "accepted", "rejected", "computed", "done"
           draws,   \* values returned by the base generator / target.sample, in call order
           chain,   \* recorded chain
           via,     \* path on which the posterior c reaches the sampler (fixed per behaviour)
-          held,    \* what the sampler object holds: "unborn" (no sampler yet), "none", "base", "own" (= c)
+          held,    \* what the sampler object holds: "unborn" (no sampler yet), "none", "base", "own" (= c),
+                   \* "own2" (= Second(c), after Change)
           bsteps   \* steps made on the base posterior before c was assigned
 
 vars == <<c, pc, geo, sr, cur, sweep, draws, chain, via, held, bsteps>>
@@ -138,7 +173,26 @@ GFun(k, t) ==
 \* ---------------------------------------------------------------- instances
 Inst(fam, pd, n, gbc, gorder, wm, attr, dep, gdim, occ, model, v, tgt) ==
     [fam |-> fam, pd |-> pd, n |-> n, gbc |-> gbc, gorder |-> gorder, wm |-> wm, attr |-> attr, dep |-> dep,
-     gdim |-> gdim, occ |-> occ, model |-> model, v |-> v, tgt |-> tgt]
+     gdim |-> gdim, occ |-> occ, model |-> model, v |-> v, tgt |-> tgt,
+     mform |-> "vector", dform |-> "ndarray", sform |-> "scalar",     \* the default writing of the inputs
+     chg |-> "none", how |-> "", ph |-> 1]                            \* no second configuration
+
+\* ---------------------------------------------------------------- input forms and second configurations
+Formed(k, f) == [k EXCEPT !.mform = f[1], !.dform = f[2], !.sform = f[3]]
+Seqd(k, s)   == [k EXCEPT !.chg = s[1], !.how = s[2]]
+IsForm(k)    == k.mform # "vector" \/ k.dform # "ndarray" \/ k.sform # "scalar"
+Plain(k)     == Formed(k, <<"vector", "ndarray", "scalar">>)
+\* content of the mean: the standard vector, the constant vector c 1, or A x
+Cont(k) == IF k.model = 1 \/ k.mform \in {"axvec", "callable", "model"} THEN "ax"
+           ELSE IF k.mform \in {"constvec", "scalar"} THEN "const" ELSE "std"
+\* the full-vector / ndarray / scalar-callable writing of the same content
+Canon(k) == [k EXCEPT !.model = 0, !.dform = "ndarray", !.sform = "scalar",
+                      !.mform = IF Cont(k) = "ax" THEN "axvec" ELSE IF Cont(k) = "const" THEN "constvec" ELSE "vector"]
+\* the configuration after Change, and the variant (1 or 2) of one input in a configuration
+Second(k)    == [k EXCEPT !.ph = 2]
+VOf(k, what) == IF k.ph = 2 /\ k.chg \in {what, "all"} THEN 3 - k.v ELSE k.v
+\* forms for which the docstrings do not state the decision: refusing when the target is given is allowed
+MayRefuse(k) == IsForm(k)
 
 \* the DiffOps configuration of an instance (order 0 and the i.i.d. Gaussian: identity operator)
 DC(k) == IF k.gorder = 0 THEN [pd |-> k.pd, n |-> k.n, bc |-> "none", order |-> 1, wm |-> 1]
@@ -174,10 +228,50 @@ DirectRows == { Inst("direct", 1, n, "zero", 1, 1, "", "", 1, 1, 0, 1, t) : n \i
                 \ { Inst("direct", 1, 1, "zero", 1, 1, "", "", 1, 1, 0, 1, t) : t \in {"gmrf", "lmrf"} }
 
 TableRows == TableGauss \cup TableGMRF \cup LMRFRows \cup DirectRows
-Instances == NumGMRF \cup NumGauss \cup (IF Tables THEN TableRows ELSE {})
 
-\* paths on which an instance reaches a sampler: every row of the decision table on every path
-ViaOf(k) == IF Tables /\ k \in TableRows THEN Vias ELSE {"ctor"} \cup NumSetPaths
+\* the documented decision table (docstrings of Conjugate / ConjugateApprox / Direct); it does not mention the forms
+Accept(k) ==
+    CASE k.fam = "direct" -> k.tgt \in Samplable
+      [] k.fam = "lmrf"   -> k.gdim = 1 /\ VOf(k, "mean") = 1 /\ k.occ = 1 /\ k.dep = "reciprocal"
+      [] OTHER            -> k.gdim = 1 /\ k.occ = 1 /\
+                             ((k.attr = "cov" /\ k.dep = "reciprocal") \/ (k.attr = "prec" /\ k.dep = "identity"))
+
+\* every accepted pair of the table in every other writing; two rejected rows with a scalar mean; numeric instances
+AcceptedRows == { k \in TableGauss \cup TableGMRF \cup LMRFRows : Accept(k) }
+FormRejected == { k \in TableGauss : /\ k.gdim = 1 /\ k.occ = 1 /\ k.attr \in {"cov", "prec"}
+                                      /\ k.dep \in {"identity", "reciprocal"} /\ ~Accept(k) }
+FormNumGauss == { k \in NumGauss : k.model = 0 }
+FormNumGMRF  == { k \in NumGMRF : k.v = 2 /\ k.n = (IF k.pd = 1 THEN 4 ELSE 3) }
+MFormsOf(k)  == IF k.fam = "lmrf" THEN {"scalar"}                  \* zero location: the zero vector is the default form
+                ELSE IF k.fam = "gmrf" THEN {"constvec", "scalar", "callable", "model"}
+                ELSE {"constvec", "scalar", "callable"}            \* i.i.d. Gaussian: the model form is the field `model`
+SFormsOf(k)  == IF k.fam = "gaussian" THEN {"vector", "matrix"} ELSE {}
+FormsOf(k, lvl) ==
+    LET one   == { <<mf, "ndarray", "scalar">> : mf \in MFormsOf(k) }
+                 \cup { <<"vector", df, "scalar">> : df \in {"cuqiarray", "list"} }
+                 \cup { <<"vector", "ndarray", sf>> : sf \in SFormsOf(k) }
+        combo == { <<"scalar", "cuqiarray", "scalar">> }
+                 \cup { <<"scalar", "list", sf>> : sf \in SFormsOf(k) \ {"matrix"} }
+    IN IF lvl >= 2 THEN one \cup combo ELSE { <<"scalar", "ndarray", "scalar">>, <<"scalar", "cuqiarray", "scalar">> }
+FormInstances ==
+    IF FormLevel = 0 THEN {}
+    ELSE (IF Tables THEN UNION { { Formed(k, f) : f \in FormsOf(k, 2) } : k \in AcceptedRows } ELSE {})
+         \cup (IF Tables THEN { Formed(k, <<"scalar", "ndarray", "scalar">>) : k \in FormRejected } ELSE {})
+         \cup UNION { { Formed(k, f) : f \in FormsOf(k, FormLevel) } : k \in FormNumGauss \cup FormNumGMRF }
+
+\* pairs of configurations met by one sampler: (what changes, how)
+SeqKinds(k) == { <<"data", "set_target">>, <<"alpha", "set_target">>, <<"beta", "set_target">>,
+                 <<"alpha", "assign">>, <<"beta", "assign">> }
+               \cup (IF k.fam = "lmrf" THEN {} ELSE { <<"mean", "set_target">>, <<"all", "set_target">> })
+SeqInstances == IF Seqs /\ Tables THEN UNION { { Seqd(k, s) : s \in SeqKinds(k) } : k \in AcceptedRows } ELSE {}
+
+Instances == NumGMRF \cup NumGauss \cup (IF Tables THEN TableRows ELSE {}) \cup FormInstances \cup SeqInstances
+
+\* paths on which an instance reaches a sampler: every row of the decision table on every path; the other writings of a
+\* table row by the constructor and by assignment to a sampler that has stepped; a pair starts at the constructor
+ViaOf(k) == IF k.chg # "none" THEN {"ctor"}
+            ELSE IF IsForm(k) THEN (IF Tables /\ Plain(k) \in TableRows THEN {"ctor", "set_stepped"} ELSE {"ctor"} \cup NumSetPaths)
+            ELSE IF Tables /\ k \in TableRows THEN Vias ELSE {"ctor"} \cup NumSetPaths
 
 \* the supported posterior a sampler holds before c is assigned to it (same sampler class, same parameter dimension)
 BaseInst(k) ==
@@ -189,13 +283,20 @@ BaseInst(k) ==
 PDim(k)   == 2                                           \* domain dimension of the linear model
 AMat(k)   == F([i \in 1..Dim(k) |-> [j \in 1..PDim(k) |-> (((i * (j + 1)) + (j * j) + k.v) % 5) - 2]])
 XIn(k)    == <<2, -1>>
-BVec(k)   == F([i \in 1..Dim(k) |-> (((i * i) + k.v) % 5) - 2])                     \* the data b
-Mu0(k)    == IF k.model = 1 THEN IMV(AMat(k), XIn(k))
-             ELSE IF k.fam = "lmrf" THEN F([i \in 1..Dim(k) |-> IF k.v = 2 /\ i = 2 THEN 1 ELSE 0])
-             ELSE F([i \in 1..Dim(k) |-> IF k.v = 1 THEN 0 ELSE (i % 3) - 1])
+\* the data b; its second version differs in the first component (not by a constant vector, which the intrinsic fields
+\* do not see)
+BVec(k)   == LET d == IF k.ph = 2 /\ k.chg \in {"data", "all"} THEN 2 ELSE 0
+             IN F([i \in 1..Dim(k) |-> (((i * i) + k.v) % 5) - 2 + (IF i = 1 THEN d ELSE 0)])
+\* the mean as a full vector (its content) and as it is given (a scalar form has length 1)
+Mu0(k)    == LET v == VOf(k, "mean") IN
+             IF Cont(k) = "ax" THEN IMV(AMat(k), XIn(k))
+             ELSE IF Cont(k) = "const" THEN F([i \in 1..Dim(k) |-> IF v = 1 THEN 0 ELSE 1])
+             ELSE IF k.fam = "lmrf" THEN F([i \in 1..Dim(k) |-> IF v = 2 /\ i = 2 THEN 1 ELSE 0])
+             ELSE F([i \in 1..Dim(k) |-> IF v = 1 THEN 0 ELSE (i % 3) - 1])
+MeanGiven(k) == IF k.mform = "scalar" THEN <<Mu0(k)[1]>> ELSE Mu0(k)
 UVec(k)   == F([i \in 1..Dim(k) |-> IF i % 2 = 1 THEN 1 ELSE -1])                   \* direction of the mean dependence
-Alpha(k)  == IF k.v = 1 THEN One ELSE Q(5, 2)
-Beta(k)   == IF k.v = 1 THEN Q(1, 4) ELSE R(3)
+Alpha(k)  == IF VOf(k, "alpha") = 1 THEN One ELSE Q(5, 2)
+Beta(k)   == IF VOf(k, "beta") = 1 THEN Q(1, 4) ELSE R(3)
 
 IAbs(x)   == IF x < 0 THEN -x ELSE x
 
@@ -207,11 +308,12 @@ Structure10(k) ==
         Dr  == IMV(D, r0)
         Du  == IMV(D, UVec(k))
     IN [m  |-> Dim(k),
+        ml |-> Len(MeanGiven(k)),           \* length of the mean as it was given
         k  |-> Rank(MR(D)),
         nrows |-> Len(D),
         a0 |-> IDot(Dr, Dr), a1 |-> IDot(Dr, Du), a2 |-> IDot(Du, Du),
         l1 |-> ISum([i \in 1..Len(Dr) |-> IAbs(Dr[i])])]
-NoGeo == [m |-> 0, k |-> 0, nrows |-> 0, a0 |-> 0, a1 |-> 0, a2 |-> 0, l1 |-> 0]
+NoGeo == [m |-> 0, ml |-> 0, k |-> 0, nrows |-> 0, a0 |-> 0, a1 |-> 0, a2 |-> 0, l1 |-> 0]
 
 Quad(g, gg) == RAdd(RAdd(R(g.a0), RMul(RMul(R(2), gg), R(g.a1))), RMul(RSq(gg), R(g.a2)))
 
@@ -232,7 +334,7 @@ GammaDiff(p, t) == SAdd(SMul(RSub(p[1], One), LogQ(R(t))), SC(RNeg(RMul(p[2], R(
 
 \* ---------------------------------------------------------------- the update of the code
 UnitUpdate(k, g, at) ==
-    <<RAdd(Q(IF DevShapeLen THEN g.m ELSE g.k, 2), Alpha(k)),
+    <<RAdd(Q(IF DevShapeLen THEN g.m ELSE IF DevShapeLenMean THEN g.ml ELSE g.k, 2), Alpha(k)),
       RAdd(RMul(Half, RMul(SFun(k.dep, k.attr, R(at)), Quad(g, GFun(k, R(at))))), Beta(k))>>
 
 \* ---------------------------------------------------------------- validation
@@ -244,20 +346,13 @@ Occurrences(k)       == IF k.dep = "none" THEN 0 ELSE k.occ
 ValidateOutcome(k) ==
     CASE k.fam = "direct" -> k.tgt \in Samplable
       [] k.fam = "lmrf"   -> /\ k.gdim = 1
-                             /\ k.v = 1                                  \* zero location
+                             /\ VOf(k, "mean") = 1                      \* zero location
                              /\ Occurrences(k) = 1
                              /\ k.attr = "scale" /\ ProbeReciprocal(k.dep)
       [] OTHER            -> /\ k.gdim = 1
                              /\ Occurrences(k) = 1
                              /\ \/ k.attr = "cov"  /\ k.dep \notin SqrtKinds /\ ProbeReciprocal(k.dep)
                                 \/ k.attr = "prec" /\ k.dep \notin SqrtKinds /\ ProbeIdentity(k.dep)
-
-\* the documented decision table (docstrings of Conjugate / ConjugateApprox / Direct)
-Accept(k) ==
-    CASE k.fam = "direct" -> k.tgt \in Samplable
-      [] k.fam = "lmrf"   -> k.gdim = 1 /\ k.v = 1 /\ k.occ = 1 /\ k.dep = "reciprocal"
-      [] OTHER            -> k.gdim = 1 /\ k.occ = 1 /\
-                             ((k.attr = "cov" /\ k.dep = "reciprocal") \/ (k.attr = "prec" /\ k.dep = "identity"))
 
 \* the conditional is a Gamma distribution and the unit-parameter update yields it
 Conjugable(k) ==
@@ -317,13 +412,30 @@ SetTarget ==
        \/ via = "set_stepped" /\ held = "base" /\ bsteps = 1
     /\ Receive
 
+\* the configuration in force: c, or Second(c) once Change has happened
+Eff == IF held = "own2" THEN Second(c) ELSE c
+\* between the first draw of a pair and Change the sampler waits; after Change the Gamma of the first draw is out of date
+\* until it is computed again
+AwaitChange == c.chg # "none" /\ sweep = 1 /\ held = "own"
+Outdated    == held = "own2" /\ sweep = 1 /\ pc = "accepted"
+
+\* the input named by c.chg is replaced by its other variant through public means; an assigned posterior is validated
+\* as any target, the setters of the Gamma prior are not a target assignment
+Change ==
+    /\ pc = "accepted" /\ AwaitChange
+    /\ held' = "own2"
+    /\ geo' = Structure10(Second(c))
+    /\ pc' = IF c.how = "set_target" /\ ~Outcome(Second(c), "own") THEN "rejected" ELSE "accepted"
+    /\ UNCHANGED <<c, sr, cur, sweep, draws, chain, via, bsteps>>
+
 \* the posterior whose conjugate pair the sampler works with
-PairInst == IF DevStalePair /\ via \in {"set_valid", "set_stepped"} THEN BaseInst(c) ELSE c
+PairInst == IF DevStalePair /\ via \in {"set_valid", "set_stepped"} THEN BaseInst(c) ELSE Eff
 PairGeo  == IF DevStalePair /\ via \in {"set_valid", "set_stepped"} THEN Structure10(BaseInst(c)) ELSE geo
 
 ComputeShapeRate ==
-    /\ pc = "accepted" /\ c.fam \in {"gaussian", "gmrf"}
-    /\ sr' = UnitUpdate(PairInst, PairGeo, IF DevScaleAtCurrent THEN cur ELSE 1)
+    /\ pc = "accepted" /\ c.fam \in {"gaussian", "gmrf"} /\ ~AwaitChange
+    /\ sr' = IF DevCacheFirstDraw /\ sweep > 0 THEN sr
+             ELSE UnitUpdate(PairInst, PairGeo, IF DevScaleAtCurrent THEN cur ELSE 1)
     /\ pc' = "computed"
     /\ UNCHANGED <<c, geo, cur, sweep, draws, chain, via, held, bsteps>>
 
@@ -341,20 +453,22 @@ Draw ==
 
 \* direct sampler and approximate sampler: no shape/rate is predicted, the draw is the target's / generator's value
 DrawOther ==
-    /\ pc = "accepted" /\ c.fam \in {"direct", "lmrf"}
+    /\ pc = "accepted" /\ c.fam \in {"direct", "lmrf"} /\ ~AwaitChange
     /\ \E v \in DrawVals : (sweep = 0 \/ v # cur) /\ DrawTo(v)
     /\ UNCHANGED <<c, geo, sr, via, held, bsteps>>
 
-Next10 == Build \/ ConstructBase \/ StepBase \/ Validate \/ SetTarget \/ ComputeShapeRate \/ Draw \/ DrawOther
+Next10 == Build \/ ConstructBase \/ StepBase \/ Validate \/ SetTarget \/ ComputeShapeRate \/ Draw \/ DrawOther \/ Change
 Spec10 == Init10 /\ [][Next10]_vars
 
 \* ---------------------------------------------------------------- properties
 TypeOK10 ==
     /\ pc \in {"new", "built", "accepted", "rejected", "computed", "done"}
     /\ sweep \in 0..NSweeps /\ Len(chain) = sweep + bsteps
-    /\ via \in Vias /\ held \in {"unborn", "none", "base", "own"} /\ bsteps \in {0, 1}
-    /\ (via = "ctor" => held \in {"unborn", "own"} /\ bsteps = 0)
-    /\ (pc \in {"accepted", "rejected", "computed", "done"} <=> held = "own")
+    /\ via \in Vias /\ held \in {"unborn", "none", "base", "own", "own2"} /\ bsteps \in {0, 1}
+    /\ (via = "ctor" => held \in {"unborn", "own", "own2"} /\ bsteps = 0)
+    /\ (pc \in {"accepted", "rejected", "computed", "done"} <=> held \in {"own", "own2"})
+    /\ (held = "own2" => c.chg # "none" /\ sweep >= 1)
+    /\ c.ph = 1 /\ (c.chg = "none" <=> c.how = "")
 
 \* the posterior held before c is one the sampler supports (otherwise the set_valid / set_stepped paths do not exist)
 BaseSupported ==
@@ -363,24 +477,44 @@ BaseSupported ==
 
 \* the accept / reject decision on a target is the documented one whatever the sampler held before
 DecisionIgnoresHistory ==
-    held = "own" => ((pc # "rejected") = Accept(c))
+    held \in {"own", "own2"} => ((pc # "rejected") = Accept(Eff))
 
 \* the Gamma distribution drawn from has a log-density that differs from the target's own by a constant
 DrawnIsTarget ==
-    (pc \in {"computed", "done"} \/ (pc = "accepted" /\ sweep > 0)) /\ Numeric(c) =>
-        \A t \in {2, 4} : GammaDiff(sr, t) = TargetDiff(c, geo, t)
+    (pc \in {"computed", "done"} \/ (pc = "accepted" /\ sweep > 0 /\ ~Outdated)) /\ Numeric(c) =>
+        \A t \in {2, 4} : GammaDiff(sr, t) = TargetDiff(Eff, geo, t)
+
+\* the Gamma drawn from is the one of the canonical writing of the same content: in particular its shape is
+\* rank/2 + alpha whatever the representation (and the length) of the mean, the data and the scale as they were given
+FormIndependent ==
+    pc \in {"computed", "done"} /\ Numeric(c) /\ Canon(Eff) # Eff =>
+        /\ sr = UnitUpdate(Canon(Eff), Structure10(Canon(Eff)), 1)
+        /\ Mu0(Canon(Eff)) = Mu0(Eff) /\ BVec(Canon(Eff)) = BVec(Eff)
+\* the decision table does not mention the forms; every form instance is another writing of an instance of the model
+FormsAreWritings ==
+    /\ Accept(c) = Accept(Plain(c))
+    /\ (IsForm(c) => Plain(c) \in Instances /\ c.chg = "none")
+    /\ Len(Mu0(c)) = Dim(c) /\ Len(MeanGiven(c)) \in {1, Dim(c)}
+
+\* a pair: both configurations are supported, the second draw is made from the Gamma of the second configuration and
+\* that Gamma is not the one of the first draw (the pair is not degenerate)
+SecondDrawIsNew ==
+    /\ (c.chg # "none" => Accept(c) /\ Accept(Second(c)) /\ Plain(Seqd(c, <<"none", "">>)) \in Instances)
+    /\ (held = "own2" /\ pc \in {"computed", "done"} /\ Numeric(c) =>
+            /\ sr = UnitUpdate(Second(c), Structure10(Second(c)), 1)
+            /\ sr # UnitUpdate(c, Structure10(c), 1))
 
 \* implementation-shaped validation = documented table; accepted rows are conjugate
 TableConsistent ==
     pc \in {"accepted", "rejected", "computed", "done"} =>
-        /\ (pc # "rejected") = Accept(c)
-        /\ (Accept(c) /\ Numeric(c) => Conjugable(c))
+        /\ (pc # "rejected") = Accept(Eff)
+        /\ (Accept(Eff) /\ Numeric(c) => Conjugable(Eff))
 
 \* rejecting is necessary: for a row whose conditional is not of the conjugate form the update would not yield the
 \* target; for a rejected row of conjugate form it would (harmless acceptance, e.g. prec = 2 d)
 UnitExact(k, g) == \A t \in {2, 4} : GammaDiff(UnitUpdate(k, g, 1), t) = TargetDiff(k, g, t)
 RejectionJustified ==
-    pc = "rejected" /\ Numeric(c) /\ ~DevShapeLen =>
+    pc = "rejected" /\ Numeric(c) /\ ~DevShapeLen /\ ~IsForm(c) =>
         /\ (geo.k > 0 /\ geo.a0 > 0 /\ geo.a1 # 0 /\ geo.a2 > 0)              \* the witness instance is not degenerate
         /\ (UnitExact(c, geo) <=> Conjugable(c))
 
@@ -404,21 +538,30 @@ BaseRec(k) ==
         u1  == IF num THEN UnitUpdate(k, Structure10(k), 1) ELSE <<Zero, Zero>>
     IN [kind |-> "conj", fam |-> k.fam, pd |-> k.pd, n |-> k.n, gbc |-> k.gbc, gorder |-> k.gorder, wm |-> k.wm,
         attr |-> k.attr, dep |-> k.dep, gdim |-> k.gdim, occ |-> k.occ, model |-> k.model, v |-> k.v, tgt |-> k.tgt,
+        mform |-> k.mform, dform |-> k.dform, sform |-> k.sform, meangiven |-> MeanGiven(k),
         accept |-> Accept(k),
         b |-> BVec(k), mu0 |-> Mu0(k), u |-> UVec(k), A |-> AMat(k), xin |-> XIn(k),
         alpha |-> Alpha(k), beta |-> Beta(k), shape |-> u1[1], rate |-> u1[2]]
+\* the second configuration of a pair: its data, mean and prior, the Gamma of its own conjugate update, its structure
+SecondRec(k) ==
+    LET g == IF k.fam \in {"gaussian", "gmrf", "lmrf"} /\ k.gdim = 1 THEN Structure10(k) ELSE NoGeo
+    IN [rec |-> BaseRec(k), m |-> g.m, k |-> g.k, nrows |-> g.nrows, q |-> g.a0, l1 |-> g.l1]
 
 CaseRec ==
     LET k == c
         num == Numeric(k)
-        u1 == IF num THEN UnitUpdate(k, geo, 1) ELSE <<Zero, Zero>>
+        g1 == IF held = "own2" THEN Structure10(k) ELSE geo           \* structure of the first configuration
+        u1 == IF num THEN UnitUpdate(k, g1, 1) ELSE <<Zero, Zero>>
     IN [kind |-> "conj", fam |-> k.fam, pd |-> k.pd, n |-> k.n, gbc |-> k.gbc, gorder |-> k.gorder, wm |-> k.wm,
         attr |-> k.attr, dep |-> k.dep, gdim |-> k.gdim, occ |-> k.occ, model |-> k.model, v |-> k.v, tgt |-> k.tgt,
+        mform |-> k.mform, dform |-> k.dform, sform |-> k.sform, meangiven |-> MeanGiven(k), ml |-> g1.ml,
+        mayrefuse |-> MayRefuse(k),
+        chg |-> k.chg, how |-> k.how, second |-> IF k.chg # "none" THEN <<SecondRec(Second(k))>> ELSE <<>>,
         accept |-> (pc # "rejected"), conjugable |-> Conjugable(k),
-        unitexact |-> IF num /\ geo.m > 0 THEN UnitExact(k, geo) ELSE FALSE,
+        unitexact |-> IF num /\ g1.m > 0 THEN UnitExact(k, g1) ELSE FALSE,
         b |-> BVec(k), mu0 |-> Mu0(k), u |-> UVec(k), A |-> AMat(k), xin |-> XIn(k),
         alpha |-> Alpha(k), beta |-> Beta(k),
-        m |-> geo.m, k |-> geo.k, nrows |-> geo.nrows, q |-> geo.a0, l1 |-> geo.l1,
+        m |-> g1.m, k |-> g1.k, nrows |-> g1.nrows, q |-> g1.a0, l1 |-> g1.l1,
         shape |-> u1[1], rate |-> u1[2],
         P |-> IF k.fam = "gmrf" THEN Prec(DC(k)) ELSE <<>>,
         init |-> InitCur, chain |-> chain, draws |-> draws,
